@@ -145,7 +145,7 @@ func zvCertOf(pemStr string) *x509.Certificate {
 }
 
 var zvCmds = []string{"rotate-xsign", "rotate-xsign", "rotate-force", "rotate-back", "config-only", "toggle-xsign", "noop-update", "bad-update",
-	"raw-stale-setroots", "raw-stale-setroots", "raw-bad-active-count", "raw-stale-roots-and-config", "raw-stale-setconfig", "raw-current-same-set", "failover", "failover"}
+	"raw-stale-setroots", "raw-stale-setroots", "raw-bad-active-count", "raw-stale-roots-and-config", "raw-stale-setconfig", "raw-current-same-set", "failover", "failover", "rotate-fail-error", "rotate-fail-cas"}
 
 func (e *zvEnv) caCommand(rng *core.Rand, cmd string) {
 	run := e.run
@@ -174,8 +174,15 @@ func (e *zvEnv) caCommand(rng *core.Rand, cmd string) {
 	}
 
 	switch cmd {
-	case "rotate-xsign", "rotate-force", "rotate-back":
+	case "rotate-xsign", "rotate-force", "rotate-back", "rotate-fail-error", "rotate-fail-cas":
 		force := cmd == "rotate-force"
+		// fault injection: the roots+config command of this rotation will not commit
+		//   error: the raft apply fails (leadership lost);  cas: another writer moved the table index first
+		inject := ""
+		if strings.HasPrefix(cmd, "rotate-fail-") {
+			inject = strings.TrimPrefix(cmd, "rotate-fail-")
+			force = rng.Bool() || e.xsignDisabled
+		}
 		cfg := zvCopyCfg(e.cfg)
 		delete(cfg, "RootCert")
 		wantID := ""
@@ -243,8 +250,40 @@ func (e *zvEnv) caCommand(rng *core.Rand, cmd string) {
 			cfg["PrivateKeyType"], cfg["PrivateKeyBits"] = "ec", 256
 		}
 		label = fmt.Sprintf("%s[%s,force=%v,xsign-disabled=%v]", cmd, variant, force, e.xsignDisabled)
+		e.d.inject, e.d.injectDone = inject, ""
 		err := update(cfg, structs.ConsulCAProvider, force)
+		injected := e.d.injectDone
+		e.d.inject, e.d.injectDone = "", ""
 		run.Distinct("ca-command", cmd+":"+variant)
+		if injected != "" {
+			// the rotation got as far as handing its roots+config command to raft and that command did
+			// not commit: nothing of the rotation may be visible, the CA must go on as before
+			run.Count("ca:failed-rotations-injected")
+			run.Count("ca:failed-rotations-injected:" + injected)
+			if err == nil {
+				fail("C12:roots:failed-rotation:reported-success", "the roots+config command of the rotation did not commit ("+injected+"), yet UpdateConfiguration returned nil", nil)
+			}
+			_, post := zvRoots(e.d.State())
+			same := core.JSON(pre) == core.JSON(post)
+			if injected == "cas" { // the interloper re-wrote the same content at a new index
+				same = zvSetKey(pre) == zvSetKey(post)
+			}
+			if !same {
+				key := "C12:roots:failed-rotation:root-table-changed"
+				if zvActiveCount(post) == 0 {
+					key = "C12:roots:failed-rotation:no-active-root"
+				}
+				fail(key, fmt.Sprintf("the roots+config command of the rotation did not commit (%s: %v), yet the root table is no longer the pre-rotation table and shows %d active roots: before=%s after=%s",
+					injected, err, zvActiveCount(post), core.JSON(pre), core.JSON(post)), map[string]any{"injected": injected, "error": fmt.Sprint(err)})
+			}
+			if pc := e.cfgView(); pc.Leaf != preCfg.Leaf || (injected == "error" && pc.Modify != preCfg.Modify) {
+				fail("C12:roots:failed-rotation:config-changed", "the rotation did not commit but the stored CA config changed", nil)
+			}
+			// the CA must still sign, and what it signs must chain to the (unchanged) active root
+			probe := &zvCSRCase{SANs: []zvSAN{{zvSANURI, "spiffe://" + zvTD + "/ns/default/dc/dc1/svc/web"}}, Mutations: []string{"probe:after-failed-rotation", "san:1-uri"}, Mode: 4, TabSeed: 7}
+			e.signCase(probe, fmt.Sprintf("%s/probe-after-%s@%d", e.name, cmd, e.d.idx))
+			return
+		}
 		if e.xsignDisabled && !force {
 			run.Count("ca:rotation-refused-no-cross-signing")
 			if err == nil {
@@ -519,6 +558,8 @@ func zvSignHistory(run *core.Run, h int, rng *core.Rand, batches, perBatch int) 
 			switch {
 			case b == 0 && n == 1:
 				cmd = []string{"rotate-xsign", "rotate-force"}[h%2]
+			case b == 1 && n == 1 && h%2 == 0:
+				cmd = []string{"rotate-fail-error", "rotate-fail-cas"}[(h/2)%2] // a rotation whose roots+config command does not commit
 			case b == 2 && n == 1 && h%2 == 1:
 				cmd = "failover"
 			case b == 3 && n == 1 && h%3 == 0:
@@ -808,7 +849,7 @@ func zvRawHistory(run *core.Run, h int, rng *core.Rand, steps int) {
 
 func TestZZVerifC12(t *testing.T) {
 	run := core.NewRun("C12", "exploration",
-		"Part 1: generated CSRs (grammar: identity kind x trust-domain variant x datacenter x partition/namespace x segment mutation x authority decoration x tail x SAN shape) are sent through connect.ParseCSR + the real CAManager.AuthorizeAndSignCertificate (built-in provider over a real FSM) with a recording table authorizer; decision, questions asked and the issued certificate (not a CA, one URI SAN, identity under consul's parser and an independent strict parser, fresh serial, chain to the active root of the state store) are judged against an independent reference; batches are interleaved with CA commands (rotations with/without cross-signing, back to a stored root, config-only, invalid, raw stale/malformed FSM CA ops, fail-over by snapshot/restore) and the roots monitor checks every FSM CA command (exactly one active root; root table untouched or equal to the requested set). Part 2: raw CARequest histories against an FSM compared with a root-table/config reference model after every command. An evaluation is one CSR (part 1) or one raw history (part 2); a CSR is non-trivial when it has a strict identity or made the CA ask the authorizer; a raw history when it has applied and refused commands; distinct by content")
+		"Part 1: generated CSRs (grammar: identity kind x trust-domain variant x datacenter x partition/namespace x segment mutation x authority decoration x tail x SAN shape) are sent through connect.ParseCSR + the real CAManager.AuthorizeAndSignCertificate (built-in provider over a real FSM) with a recording table authorizer; decision, questions asked and the issued certificate (not a CA, one URI SAN, identity under consul's parser and an independent strict parser, fresh serial, chain to the active root of the state store) are judged against an independent reference; batches are interleaved with CA commands (rotations with/without cross-signing, back to a stored root, config-only, invalid, raw stale/malformed FSM CA ops, fail-over by snapshot/restore) and the roots monitor checks every FSM CA command (exactly one active root; root table untouched or equal to the requested set) and looks at the store at the moment each command is handed to raft, before it is applied (it must still be exactly what the last applied command left). Fault injection in the delegate: for a share of rotations the roots+config command does not commit (raft error | a concurrent writer moves the CAS index first); the root table and config must then be the pre-rotation ones and a probe CSR must still be signed and chain to the unchanged active root. Part 2: raw CARequest histories against an FSM compared with a root-table/config reference model after every command. An evaluation is one CSR (part 1) or one raw history (part 2); a CSR is non-trivial when it has a strict identity or made the CA ask the authorizer; a raw history when it has applied and refused commands; distinct by content")
 	run.Assume("only the built-in Consul CA provider (Vault / AWS need network)", "CE build: partitions and namespaces other than default are foreign",
 		"SPIFFE strictness of the reference: no userinfo, port, query, fragment, empty / dot / escaped-slash segments; trust domain compared case-insensitively; agent identities may name any trust domain (documented auto-encrypt rewrite) but the issued URI must carry the cluster's",
 		"the signing rate limiter is switched off (CSRMaxPerSecond=0): it is not part of the property",
@@ -896,6 +937,10 @@ func TestZZVerifC12(t *testing.T) {
 	run.Floor("ca:rotations-without-cross-signing", core.N(5, 120))
 	run.Floor("ca:stale-cas-commands", core.N(300, 10000))
 	run.Floor("ca:failovers", core.N(4, 100))
+	run.Floor("ca:failed-rotations-injected", core.N(4, 120))
+	run.Floor("ca:failed-rotations-injected:error", core.N(2, 50))
+	run.Floor("ca:failed-rotations-injected:cas", core.N(2, 50))
+	run.Floor("store-observed-before-apply", core.N(5000, 100000))
 	run.Floor("raw-steps", core.N(5000, 200000))
 	run.FloorDistinct("csr-mutation", 60)
 	run.FloorDistinct("outcome", 20)
